@@ -260,7 +260,7 @@ class Gen:
         kinds = ['assign'] * 4 + ['print'] * 3 + ['aug'] * 2 + ['unpack', 'substore', 'if', 'if', 'for', 'for', 'while',
                  'def', 'def', 'class', 'walrus', 'import', 'dictops', 'exprstmt', 'multi', 'swap', 'nestunpack',
                  'attr', 'lambdadef', 'scopechain', 'bareann', 'factory', 'recursion', 'kwcall',
-                 'docstring', 'mapfilter', 'forstar', 'augslice', 'methodstate', 'nestedclass', 'lazygen']
+                 'docstring', 'mapfilter', 'forstar', 'augslice', 'methodstate', 'nestedclass', 'lazygen', 'leave2']
         if self.weights:
             kinds += [k for k, w in self.weights.items() for _ in range(w)]
         if sc.loop_depth:
@@ -725,6 +725,7 @@ class Gen:
             self.features.add('loop-else')
             self.emit(ind, 'else:')
             self.block(sc, ind + 1, depth - 1)
+            self._else_tail(sc, ind + 1)
             sc.vars = dict(before); sc.funcs = dict(fbefore)
 
     def s_while(self, sc, ind, depth):
@@ -744,7 +745,59 @@ class Gen:
             self.features.add('loop-else')
             self.emit(ind, 'else:')
             self.block(sc, ind + 1, depth - 1)
+            self._else_tail(sc, ind + 1)
             sc.vars = dict(before); sc.funcs = dict(fbefore)
+
+    def _else_tail(self, sc, ind):
+        """A loop's else clause that ends in a bare interrupt of the *enclosing* loop / function."""
+        c = self.r.random()
+        if sc.loop_depth and c < 0.3:
+            self.features.add('loop-else-ends-in-interrupt')
+            self.emit(ind, self.r.choice(['continue', 'break']))
+            self._dead(ind)
+        elif sc.kind == 'func' and c < 0.1:
+            self.features.add('loop-else-ends-in-interrupt')
+            self.emit(ind, f'return {self.int_expr(sc)}')
+
+    def s_leave2(self, sc, ind, depth):
+        """The 'leave two loops' idiom and its relatives: inner loop with break + else ending in an interrupt,
+        statements after the inner loop."""
+        self.features.add('leave-two-loops')
+        r = self.r
+        x, y, acc = self.fresh('i'), self.fresh('j'), self.fresh('acc')
+        before = dict(sc.vars); fbefore = dict(sc.funcs)
+        self.emit(ind, f'{acc} = []')
+        outer_while = r.random() < 0.3
+        if outer_while:
+            self.emit(ind, f'{x} = 0')
+            self.emit(ind, f'while {x} < {r.randint(2, 4)}:')
+            self.emit(ind + 1, f'{x} += 1')
+        else:
+            self.emit(ind, f'for {x} in range({r.randint(1, 4)}):')
+        sc.vars[x] = INT
+        sc.protected.add(x)
+        self.emit(ind + 1, f'for {y} in range({r.randint(0, 4)}):')
+        sc.vars[y] = INT
+        self.emit(ind + 2, f'{acc}.append(({x}, {y}))')
+        word = r.choice(['break', 'break', 'continue'])
+        self.emit(ind + 2, f'if {x} {r.choice(["+", "*", "-"])} {y} == {r.randint(0, 4)}:')
+        self.emit(ind + 3, word)
+        if r.random() < 0.5:
+            self.emit(ind + 2, f'{acc}.append({self.int_expr(sc)})')
+        self.emit(ind + 1, 'else:')
+        if r.random() < 0.5:
+            self.emit(ind + 2, f"{acc}.append('else')")
+        tail = r.choice(['continue', 'continue', 'break'] + ([f'return len({acc})'] if sc.kind == 'func' else []))
+        self.emit(ind + 2, tail)
+        self._dead(ind + 2)
+        self.emit(ind + 1, f"{acc}.append('after-inner')")
+        after = r.choice(['break', 'break', 'continue', 'pass'] + ([f'return len({acc})'] if sc.kind == 'func' else []))
+        self.emit(ind + 1, after)
+        if r.random() < 0.5:
+            self.emit(ind, 'else:')
+            self.emit(ind + 1, f"{acc}.append('outer-else')")
+        sc.vars = dict(before); sc.funcs = dict(fbefore)
+        self.emit(ind, f'print({acc})')
 
     def s_bareann(self, sc, ind, depth):
         # a statement that generates no code at all
